@@ -43,6 +43,30 @@ def _zero(*args):
     return 0
 
 
+def _custom_kind():
+    """A variable kind defined by the user through the documented extension point (VariableInterface: `compute` and
+    `get_ancestors_names`): a variable computed from a given set of other variables."""
+    from dataclasses import dataclass
+    from typing import ClassVar
+    from leaspy.variables.specs import VariableInterface
+
+    @dataclass(frozen=True)
+    class Derived(VariableInterface):
+        sources: frozenset
+        is_settable: ClassVar = False
+        fixed_shape: ClassVar = False
+
+        def get_ancestors_names(self):
+            return frozenset(self.sources)
+
+        def compute(self, state):
+            return 0
+    return Derived
+
+
+_DERIVED = None
+
+
 def run_real(par, shuffle_seed=None):
     """par: list (index n-1) of sorted lists of ranks (0 = unknown).  Returns the log record."""
     n = len(par)
@@ -62,10 +86,24 @@ def run_real(par, shuffle_seed=None):
         if via_dict:
             from leaspy.utils.functional import NamedInputFunction
             from leaspy.variables.specs import LinkedVariable
-            specs = {nm: (LinkedVariable(NamedInputFunction(_zero, parameters=tuple(sorted(anc[nm])))) if anc[nm] else IndepVariable())
-                     for nm, _ in items}
+            global _DERIVED
+            if _DERIVED is None:
+                _DERIVED = _custom_kind()
+
+            def spec_of(nm, k):
+                # dependent variables: the built-in linked kind or (every third one) a user-defined kind; variables without
+                # dependencies: independent ones or (every third one) a linked variable that depends on nothing
+                if anc[nm]:
+                    return _DERIVED(frozenset(anc[nm])) if (k + len(anc[nm])) % 3 == 0 else LinkedVariable(NamedInputFunction(_zero, parameters=tuple(sorted(anc[nm]))))
+                return LinkedVariable(NamedInputFunction(_zero, parameters=())) if (k + n) % 3 == 0 else IndepVariable()
+            specs = {nm: spec_of(nm, rank[nm]) for nm, _ in items}
             dag = VariablesDAG.from_dict(specs)
         else:
+            from leaspy.utils.functional import NamedInputFunction
+            from leaspy.variables.specs import LinkedVariable
+            # (explicit dependencies; every third variable without dependencies is a linked variable that depends on nothing)
+            variables = {nm: (LinkedVariable(NamedInputFunction(_zero, parameters=())) if (not anc[nm] and (rank[nm] + n) % 3 == 0) else IndepVariable())
+                         for nm, _ in items}
             dag = VariablesDAG(variables, direct_ancestors=anc)
     except LeaspyInputError:
         rec.update(cls="input_error", order=[], anc=[], desc=[])
